@@ -14,7 +14,7 @@ from .rules.pickle_nondet import rule_pickle, rule_nondet, rule_fillflow
 from .rules import pairs as PR
 from .rules import codes as CD
 from .rules import members as MB
-from .rules.wiring import rule_passthrough_sort, rule_passthrough_engine, rule_counter, rule_globalidx, rule_sorted, rule_infresolve, rule_uniquefrom, rule_emptyidx, rule_fillnone, rule_aligned, rule_autorefuse, rule_blocklabels, rule_axisrange, rule_qrange, rule_dtypenorm
+from .rules.wiring import rule_passthrough_sort, rule_passthrough_engine, rule_counter, rule_globalidx, rule_sorted, rule_infresolve, rule_uniquefrom, rule_emptyidx, rule_fillnone, rule_aligned, rule_autorefuse, rule_autoparam, rule_blocklabels, rule_axisrange, rule_qrange, rule_dtypenorm
 
 PROPERTIES = {
     "C01": {
@@ -67,7 +67,7 @@ PROPERTIES = {
         "explanation": "R-ARGS, R-GLOBAL, R-MEMO, R-TOKEN",
     },
     "C19": {
-        "rules": [rule_raise, rule_defassign, rule_regkey, rule_kwsig, rule_assert, rule_cover, CD.rule_codewidth, rule_loopstore, MB.rule_names, MB.rule_attr, MB.rule_dictkeys, rule_uniquefrom, rule_emptyidx, rule_fillnone, rule_aligned, rule_autorefuse, rule_axisrange, PR.rule_pairs_broadcast, PR.rule_pairs_broadcast_nax, rule_qrange, M.rule_emptykernel, rule_dtypenorm],
+        "rules": [rule_raise, rule_defassign, rule_regkey, rule_kwsig, rule_assert, rule_cover, CD.rule_codewidth, rule_loopstore, MB.rule_names, MB.rule_attr, MB.rule_dictkeys, rule_uniquefrom, rule_emptyidx, rule_fillnone, rule_aligned, rule_autorefuse, rule_autoparam, rule_axisrange, PR.rule_pairs_broadcast, PR.rule_pairs_broadcast_nax, rule_qrange, M.rule_emptykernel, rule_dtypenorm],
         "thorough": [selftest, seeded_regression],
         "technique": "CFG definite-assignment with guard correlation; call-graph reachability of raises; keyword/signature agreement of "
                      "every resolved call and partial; assert triage table",
